@@ -61,7 +61,8 @@ Clauses(e) ==
               /\ \A w \in P!WorkersOf(e.len, e.g) :
                     e.ranges[w + 1] = << P!LoOf(e.len, e.g, w), P!HiOf(e.len, e.g, w) >> >>,
            << "C12.partition_static_ok", P!StaticOK(e.len, e.g) >>,
-           << "C12.params_agree", e.per = P!PerOf(e.len, e.g) /\ e.n = P!NOf(e.len, e.g) >> >>
+           << "C12.params_agree", e.per = P!PerOf(e.len, e.g) /\ e.n = P!NOf(e.len, e.g) >>,
+           << "C12.proof_hypotheses_hold", P!ProofHypotheses(e.len, e.g) >> >>
     [] e.ev = "gresult" ->
         << << "C12.parity_same_for_every_g", e.parity_equal >>,
            << "C12.reconstruction_same_for_every_g", e.reconstruct_equal >> >>
